@@ -13,6 +13,7 @@ import (
 	"go/ast"
 	"go/parser"
 	"go/token"
+	"go/types"
 	"math/rand"
 	"os"
 	"os/exec"
@@ -208,6 +209,7 @@ func ensurePB() (map[string]string, error) {
 	if b, err := os.ReadFile(bin); err == nil {
 		h.Write(b)
 	}
+	h.Write([]byte(*repoDir))
 	key := fmt.Sprintf("%x", h.Sum(nil))[:16]
 	out := filepath.Join(*verifDir, ".cache/pb", key)
 	ovf := filepath.Join(out, "overlay.json")
@@ -353,7 +355,17 @@ func (n *nativeRunner) binFor(dir string) (string, error) {
 		return "", err
 	}
 	ovf := filepath.Join(n.scratch, key+"_overlay.json")
-	if err := n.ov.writeJSON(ovf, map[string]string{filepath.Join(*repoDir, dir, "zz_verif_replay_test.go"): tf}); err != nil {
+	extra := map[string]string{filepath.Join(*repoDir, dir, "zz_verif_replay_test.go"): tf}
+	// the package's own test files are not needed for the replay binary (and some need generated
+	// mocks that are absent from the tree): an empty replacement path deletes them from the build
+	if ents, err := os.ReadDir(filepath.Join(*repoDir, dir)); err == nil {
+		for _, e := range ents {
+			if strings.HasSuffix(e.Name(), "_test.go") {
+				extra[filepath.Join(*repoDir, dir, e.Name())] = ""
+			}
+		}
+	}
+	if err := n.ov.writeJSON(ovf, extra); err != nil {
 		return "", err
 	}
 	bin := filepath.Join(n.scratch, key+".test")
@@ -385,7 +397,7 @@ func (n *nativeRunner) run(dir string, jobs []job) ([]nativeResult, error) {
 		os.WriteFile(in, b, 0o644)
 		cmd := exec.Command(bin, "-test.run", "^TestZZVerifReplay$", "-test.count=1", "-test.timeout=120s")
 		cmd.Dir = filepath.Join(*repoDir, dir)
-		cmd.Env = append(os.Environ(), "VERIF_REPLAY_IN="+in, "VERIF_REPLAY_OUT="+out, "VERIF_TIER="+*tier)
+		cmd.Env = append(os.Environ(), "VERIF_REPLAY_IN="+in, "VERIF_REPLAY_OUT="+out, "VERIF_TIER="+*tier, "TZ=UTC")
 		// cap memory so that "allocates without bound" findings end in an allocation failure, not an OOM kill
 		sh := exec.Command("sh", "-c", "ulimit -v 4194304; exec \"$0\" \"$@\"", bin, "-test.run", "^TestZZVerifReplay$", "-test.count=1", "-test.timeout=120s")
 		sh.Dir, sh.Env = cmd.Dir, cmd.Env
@@ -542,7 +554,7 @@ func runProperty() int {
 	totalValidated := 0
 	totalDisagree := 0
 	crossChecked, crossDisagree := 0, 0
-	replayDir := filepath.Join(*verifDir, "evidence/replays")
+	replayDir := filepath.Join(evidenceDir(), "replays")
 	os.MkdirAll(replayDir, 0o755)
 
 	for _, h := range hs {
@@ -581,14 +593,34 @@ func runProperty() int {
 		if r, ok := h.Opts["redirect"]; ok {
 			for _, pair := range strings.Split(r, ",") {
 				ft := strings.SplitN(pair, ":", 2)
-				to := pkg.Func(ft[1])
-				from := pkg.Func(ft[0])
-				if len(ft) != 2 || to == nil || from == nil {
+				if len(ft) != 2 {
 					fmt.Printf("ENGINE-ERROR bad redirect %q in %s\n", pair, h.Name)
 					return 2
 				}
-				eng.Redirects[from.String()] = to
-				redirNotes = append(redirNotes, from.String()+" -> "+to.String())
+				to := pkg.Func(ft[1])
+				var froms []*ssa.Function
+				if f := pkg.Func(ft[0]); f != nil {
+					froms = append(froms, f)
+				} else {
+					// method or function of any package, named as "Type.method" or "pkgname.Func";
+					// every instantiation of a generic matches
+					if allFns == nil {
+						allFns = ssautil.AllFunctions(prog)
+					}
+					for f := range allFns {
+						if redirectMatches(f, ft[0]) {
+							froms = append(froms, f)
+						}
+					}
+				}
+				if to == nil || len(froms) == 0 {
+					fmt.Printf("ENGINE-ERROR redirect %q in %s: target or stub not found\n", pair, h.Name)
+					return 2
+				}
+				for _, from := range froms {
+					eng.Redirects[from.String()] = to
+				}
+				redirNotes = append(redirNotes, ft[0]+" -> "+to.String())
 			}
 		}
 		res := eng.Explore(fn, cfg)
@@ -846,9 +878,9 @@ func runProperty() int {
 		"wall_s":      time.Since(t0).Seconds(),
 		"violations":  len(violLines),
 	}
-	os.MkdirAll(filepath.Join(*verifDir, "evidence"), 0o755)
+	os.MkdirAll(evidenceDir(), 0o755)
 	b, _ := json.MarshalIndent(ev, "", " ")
-	os.WriteFile(filepath.Join(*verifDir, "evidence", *prop+".json"), b, 0o644)
+	os.WriteFile(filepath.Join(evidenceDir(), *prop+".json"), b, 0o644)
 
 	for _, l := range knownLines {
 		fmt.Println(l)
@@ -950,4 +982,39 @@ func doReplay(path string) int {
 		return 1
 	}
 	return 0
+}
+
+var evDir = flag.String("out", "", "evidence directory (default <verif>/evidence)")
+
+func evidenceDir() string {
+	if *evDir != "" {
+		return *evDir
+	}
+	return filepath.Join(*verifDir, "evidence")
+}
+
+var allFns map[*ssa.Function]bool
+
+// redirectMatches: "Type.method" matches methods whose receiver's named type is Type (any
+// package of the module, any instantiation); "pkg.Func" matches a package-level function.
+func redirectMatches(f *ssa.Function, name string) bool {
+	i := strings.LastIndex(name, ".")
+	if i < 0 {
+		return false
+	}
+	left, right := name[:i], name[i+1:]
+	if f.Name() != right {
+		return false
+	}
+	if recv := f.Signature.Recv(); recv != nil {
+		t := recv.Type()
+		if p, ok := t.(*types.Pointer); ok {
+			t = p.Elem()
+		}
+		if n, ok := t.(*types.Named); ok {
+			return n.Obj().Name() == left && n.Obj().Pkg() != nil && strings.HasPrefix(n.Obj().Pkg().Path(), module)
+		}
+		return false
+	}
+	return f.Pkg != nil && f.Pkg.Pkg.Name() == left && strings.HasPrefix(f.Pkg.Pkg.Path(), module)
 }
